@@ -743,7 +743,7 @@ def make_rm32(mnemonic, opcode, o, written=True):
     syntax = Syntax([mnemonic, " ", rm], priority=2)
     members = {"syntax": syntax, "rm": rm, "opcode": opcode, "reg": o}
     members["rm_written"] = written
-    return type(mnemonic.title(), (RmBase,), members)
+    return type(mnemonic.title(), (RmBase32,), members)
 
 
 def make_rm16(mnemonic, opcode, o, written=True):
